@@ -20,6 +20,8 @@ def eval_case(case):
             break
         d = rec["dump"]
         out += [dict(v, signature=v["signature"] + "/" + name) for v in O.c08_lengths(d)]
+        if name == "report":
+            continue
         if name == "simulate":
             out += O.c08_entries(S, rec)
         elif name == "backward":
@@ -80,8 +82,10 @@ def gen_ops(rng, c):
             o["due"] = rng.random() < 0.5
             o["revlog"] = rng.random() < 0.6
             ops.append(o)
-        elif r < 0.75:
+        elif r < 0.72:
             ops.append({"op": "initialize", "state": rng.random() < 0.6, "log": rng.random() < 0.6})
+        elif r < 0.8:
+            ops.append({"op": "report"})          # Gantt data / state queries between two operations: read-only
         else:
             ops.append({"op": "reverse_log"})
     return ops
